@@ -24,7 +24,9 @@ def _ev(model, qual, **kw):
 def _drop_isinstance(t, value=False):
     """Specialise away isinstance(...) selectors (the distrax -> StaticDist wrapping is not under test)."""
     for _ in range(4):
-        conds = [x[1] for x in T.walk(t) if x[0] == "ite" and x[1][0] == "call" and x[1][1] == "isinstance"]
+        # only tests on a parameter / attribute itself (is it a raw distrax distribution, a string, ...): a test on something
+        # derived from it selects between different computations and stays visible
+        conds = [x[1] for x in T.walk(t) if x[0] == "ite" and x[1][0] == "call" and x[1][1] == "isinstance" and x[1][2] and x[1][2][0][0] == "sym"]
         if not conds:
             break
         for c in conds:
@@ -72,6 +74,29 @@ def run(chk: Check, model):
                           "phase_output == phase + delay; infos read the properties (A7)")
     chk.rule("C16.loop", "the RecursionError handler of BaseNode.phase re-raises on every path")
 
+    # ------------------------------------------------------------------ the simulation samples from what is configured
+    chk.rule("C16.bind", "the simulated delays follow the configured distributions: every warmup() rebinds the node's and each input's delay samplers to the "
+                         "current delay_dist (set_delay followed by init / warmup takes effect), unconditionally")
+    from ..asyncflow import AsyncView
+    view = AsyncView(model)
+    for key, src in (("node.warmup", "self.node.delay_dist"), ("conn.warmup", "delay_dist")):
+        rw = view.results[key]
+        fw = view.fi(key)
+        chk.used(fw.qualname)
+        for attr, meth in (("_jit_reset", "reset"), ("_jit_sample", "sample_pure")):
+            sts = [e for e in rw.events if e.kind == "store_attr" and e.name == f"self.{attr}"]
+            ok = len(sts) == 1 and sts[0].guard == T.TRUE and not sts[0].loops
+            inner = None
+            if ok:
+                c = rw.ev.closures.get(sts[0].term[1]) if sts[0].term[0] == "closure" else None
+                inner = c.inner if c is not None else None
+                ok = inner is not None and inner[0] in ("sym", "attr") and T.show(inner).endswith(f"delay_dist.{meth}") and src in T.show(inner)
+            chk.add("C16.bind", f"{key}: self.{attr} <- {meth} of the current distribution", bool(ok), f"self.{attr} is bound {len(sts)} time(s)"
+                    + (f" under {T.show(sts[0].guard)[:80]} to {T.show(inner)[:100] if inner else T.show(sts[0].term)[:60]}" if sts else "")
+                    + f"; expected one unconditional jax.jit({src}.{meth}) per warmup (a warmup that returns early keeps sampling the old distribution)", chk.loc(fw, sts[0].node if sts else None))
+    rw = view.results["node.warmup"]
+    iw = [e for e in rw.events if e.kind == "call" and e.name.endswith(".warmup") and e.loops]
+    chk.add("C16.bind", "node.warmup warms up every input", len(iw) == 1 and iw[0].guard == T.TRUE, "node.warmup must call warmup() of every input unconditionally", chk.loc(view.fi("node.warmup")))
     # ------------------------------------------------------------------ setters
     for cls in ("Connection", "BaseNode"):
         fi, ev, r = _ev(model, f"node.{cls}.set_delay")
